@@ -26,6 +26,7 @@ type c20Act struct {
 	Kind string `json:"kind"` // gated quick open stop resize
 	Wait bool   `json:"wait"` // SubmitWait (in a goroutine) instead of Submit
 	N    int    `json:"n"`
+	Nil  bool   `json:"nil,omitempty"` // the task's result is nil (a result like any other: it has to be delivered)
 }
 type c20Case struct {
 	Size int      `json:"size"`
@@ -36,7 +37,7 @@ func genC20(t *rapid.T) c20Case {
 	c := c20Case{Size: rapid.IntRange(1, 3).Draw(t, "size")}
 	n := rapid.IntRange(2, 14).Draw(t, "n")
 	for i := 0; i < n; i++ {
-		a := c20Act{Kind: pick(t, "kind", "gated", "gated", "gated", "quick", "quick", "open", "open", "resize", "stop"), Wait: rapid.Bool().Draw(t, "wait"), N: rapid.IntRange(0, 6).Draw(t, "n")}
+		a := c20Act{Kind: pick(t, "kind", "gated", "gated", "gated", "quick", "quick", "open", "open", "resize", "stop"), Wait: rapid.Bool().Draw(t, "wait"), N: rapid.IntRange(0, 6).Draw(t, "n"), Nil: rapid.IntRange(0, 4).Draw(t, "nilres") == 0}
 		if a.Kind == "stop" && rapid.IntRange(0, 2).Draw(t, "rare") != 0 {
 			a.Kind = "open"
 		}
@@ -59,6 +60,7 @@ type c20Task struct {
 	res      interface{}
 	ok       bool
 	gateOpen bool
+	nilRes   bool
 }
 
 var c20Logger *absnfs.AbsfsNFS
@@ -84,8 +86,8 @@ func runC20(tb stat.TB, c c20Case) {
 	nt := false
 	resizeDone := []chan struct{}{}
 
-	submit := func(gated, wait bool) *c20Task {
-		t := &c20Task{id: len(tasks), gated: gated, wait: wait, gate: make(chan struct{}), started: make(chan struct{}), submitReturned: make(chan struct{}), waitDone: make(chan struct{})}
+	submit := func(gated, wait, nilRes bool) *c20Task {
+		t := &c20Task{id: len(tasks), nilRes: nilRes, gated: gated, wait: wait, gate: make(chan struct{}), started: make(chan struct{}), submitReturned: make(chan struct{}), waitDone: make(chan struct{})}
 		tasks = append(tasks, t)
 		fn := func() interface{} {
 			r := atomic.AddInt32(&running, 1)
@@ -102,6 +104,9 @@ func runC20(tb stat.TB, c c20Case) {
 				<-t.gate
 			}
 			atomic.AddInt32(&running, -1)
+			if t.nilRes {
+				return nil
+			}
 			return fmt.Sprintf("token-%d", t.id)
 		}
 		if wait {
@@ -167,9 +172,9 @@ func runC20(tb stat.TB, c c20Case) {
 	for _, a := range c.Acts {
 		switch a.Kind {
 		case "gated":
-			submit(true, a.Wait)
+			submit(true, a.Wait, a.Nil)
 		case "quick":
-			submit(false, a.Wait)
+			submit(false, a.Wait, a.Nil)
 		case "open":
 			var cand []*c20Task
 			for _, t := range tasks {
@@ -262,7 +267,10 @@ func runC20(tb stat.TB, c c20Case) {
 	}
 	for _, t := range tasks {
 		ex := atomic.LoadInt32(&t.execs)
-		want := fmt.Sprintf("token-%d", t.id)
+		var want interface{} = fmt.Sprintf("token-%d", t.id)
+		if t.nilRes {
+			want = nil
+		}
 		if ex > 1 {
 			if stat.Violate(tb, id, check, "task-executed-twice", c, "task %d was executed %d times", t.id, ex) {
 				return
